@@ -234,7 +234,14 @@ func zzCountNodes(n *idr.Node) int {
 }
 
 // C05Hier: every hierarchy shape × symbolic min/max × every unit sequence up to L.
-func C05Hier() {
+func C05Hier() { zzC05Hier(false) }
+
+// C05HierFilter: the same with a target xpath that rejects every target instance containing one
+// chosen unit (by position): rejected instances are consumed and counted towards max like any
+// other, they are just not delivered; terminal results are those of the unfiltered reference.
+func C05HierFilter() { zzC05Hier(true) }
+
+func zzC05Hier(filtered bool) {
 	L := zz.Param("L", 4)
 	shape := zz.NondetChoice("shape", zzNumShapes)
 	if s := zz.Param("shape", -1); s >= 0 {
@@ -254,9 +261,33 @@ func C05Hier() {
 		}
 	}
 	rr := &zzRecReader{units: units, consumed: make([]int, len(units)), failAt: -1}
-	r := NewHierarchyReader(top, rr, nil)
+	var filter *xpath.Expr
+	rej := -1
+	if filtered {
+		// node texts are the unit positions
+		rej = zz.NondetChoice("rejectUnit", 4)
+		filter, _ = caches.GetXPathExpr([]string{".[not(.//text()='0')]", ".[not(.//text()='1')]", ".[not(.//text()='2')]", ".[not(.//text()='3')]"}[rej])
+	}
+	r := NewHierarchyReader(top, rr, filter)
 	root := r.stack[0].recNode
 	spec := zzSpecGreedy(top, units)
+	if filtered {
+		var kept [][]int
+		for _, t := range spec.targets {
+			has := false
+			for _, u := range t {
+				if u == rej {
+					has = true
+				}
+			}
+			if !has {
+				kept = append(kept, t)
+			} else {
+				zz.Cover("rejected")
+			}
+		}
+		spec.targets = kept
+	}
 
 	delivered := 0
 	var lastTarget *idr.Node
